@@ -91,7 +91,8 @@ def verbPrettyTie (e : Env) (f : List (List Nat)) : List Nat :=
     let tk : Name → PTok := fun n => classify e.real (isAlpha (n.headD 0) || n.headD 0 == 95) n
     let prog := Sqf.Pretty.prettyProgram tk (Sqf.Pretty.normList ss)
     let toks := ptoks e.real (Sqf.Pretty.prettyFile ss)
-    str "tokens=" ++ (if toks == prog.toks then str "agree" else str "differ") ++
+    str "good=" ++ (if Sqf.Pretty.goodStmtsB tk (Sqf.Pretty.normList ss) then str "yes" else str "no") ++
+    str " tokens=" ++ (if toks == prog.toks then str "agree" else str "differ") ++
     str " readback=" ++ (match parseToks toks with
       | some ss' => if (ss'.map (fun a => renderInstrs (Sqf.compile a))) == (ss.map (fun a => renderInstrs (Sqf.compile a))) then str "same" else str "other"
       | none => str "none")
